@@ -50,7 +50,7 @@ pub fn subs() -> Vec<Box<dyn AnySub>> {
             quick: 8_000,
             thorough: 100_000,
             strat: || {
-                (plan(PlanOpts { header_only: true, ..PlanOpts::default() }), proptest::collection::vec(prop_oneof![Just("Basic dXNlcjpwYXNz".to_string()), Just("AWS4-HMAC-SHA256 Credential=x".to_string()), Just(String::new()), "[!-~]{1,20}( [!-~]{1,20}){0,2}", Just("@same".to_string())], 1..4))
+                (plan(PlanOpts { header_only: true, ..PlanOpts::default() }), proptest::collection::vec(prop_oneof![Just("Basic dXNlcjpwYXNz".to_string()), Just("AWS4-HMAC-SHA256 Credential=x".to_string()), Just(String::new()), Just(format!("Signature={}", "0".repeat(64))), Just("Credential=AKIDOTHER/20150830/us-east-1/service/aws4_request".to_string()), Just("SignedHeaders=host".to_string()), "[!-~]{1,20}( [!-~]{1,20}){0,2}", Just("@same".to_string())], 1..4))
                     .prop_map(|(plan, more)| Extra { plan, more })
                     .boxed()
             },
